@@ -384,6 +384,10 @@ def r20_6(ctx, family: Optional[str] = None) -> None:
 
 
 def run(ctx) -> None:
+    from .c11 import r11_22 as _r11_22
+    ctx.guard(_r11_22, "R20.8")  # a failed call leaves no invalid state behind in a shared key (the lazily built JWK view is validated before it is stored)
+    from .c13 import r13_4 as _r13_4
+    ctx.guard_as("R20.7", _r13_4)  # a shared key's kid is written once: no later call replaces a kid that is present (the empty string included)
     fx = Effects(ctx.eng.prog, ctx.eng.cg)
     ctx.guard(r20_6)
     ctx.guard(r20_1, fx)
